@@ -2,8 +2,9 @@
 //
 // Space: every constructor of the registry below x argument tuples drawn from per-argument alphabets of special
 // values {NaN, +-inf, +-0, -1, 1e-320, 1e308, 1, 1+ulp, 2, ..., valid values}.  quick: every tuple that differs
-// from a valid base tuple in at most TWO positions; thorough: the full Cartesian product where it has at most
-// 300 000 tuples, otherwise every tuple that differs from a base in at most THREE positions.
+// from a valid base tuple in at most TWO positions; thorough: larger alphabets and the full Cartesian product where it
+// has at most 30 000 tuples, otherwise every tuple that differs from a base in at most THREE (constructors with up
+// to 4 arguments) or TWO positions.
 // Reference: models/ctor_validity.hpp (written from the headers' @exception text).
 // Predicates per tuple:  INVALID  => GeographicErr (exactly that type);
 //                        VALID    => no exception, and a smoke call on the object ends cleanly;
@@ -197,14 +198,14 @@ static void enumerate0(const Ctor& c, bool T, std::vector<std::vector<double>>& 
   if (T) {
     double prod = 1; std::vector<std::vector<double>> al(n);
     for (size_t i = 0; i < n; ++i) { std::set<uint64_t> s; for (auto& b : c.bases) for (double x : alphabet(c.kinds[i], b[i], T)) if (s.insert(mc::bits(x)).second) al[i].push_back(x); prod *= al[i].size(); }
-    if (prod <= 300000) {
+    if (prod <= 30000) {
       std::vector<size_t> idx(n, 0);
       while (true) { std::vector<double> t(n); for (size_t i = 0; i < n; ++i) t[i] = al[i][idx[i]]; push(t); size_t p = 0; while (p < n && ++idx[p] == al[p].size()) idx[p++] = 0; if (p == n) break; }
       for (auto& b : c.bases) for (size_t i = 0; i < n; ++i) for (double x : singles_only(c.kinds[i])) { std::vector<double> t = b; t[i] = x; push(t); }
       how = "full product"; return;
     }
   }
-  const size_t maxsub = T ? 3 : 2;
+  const size_t maxsub = (T && n <= 4) ? 3 : 2;
   how = "all tuples differing from a valid base tuple in <= " + std::to_string(maxsub) + " positions";
   for (auto& b : c.bases) {
     push(b);
